@@ -84,6 +84,10 @@ func cmdVerify(args []string) int {
 	bad := 0
 	for _, name := range fs.Args() {
 		for _, lvl := range E.LevelsOf(name) {
+			if ct := E.S.Contracts[name]; ct != nil && strings.Contains(ct.AssumeFacets, levelNames[lvl]) {
+				fmt.Printf("%s [%s]: assumed (assumefacet)\n", name, levelNames[lvl])
+				continue
+			}
 			fr := E.Encode(name, lvl)
 			if fr.Unsupported != "" {
 				fmt.Printf("%s [%s]: UNSUPPORTED %s\n", name, fr.Level, fr.Unsupported)
